@@ -413,6 +413,21 @@ func waitResponseLockFacts(fd *ast.FuncDecl) (facts map[string]bool, err error) 
 		return nil, fmt.Errorf("waitResponse: no for loop")
 	}
 	seen := map[string]int{}
+	// several exits may be of one kind (e.g. more than one error exit that gives the connection up): the fact is what
+	// ALL of them do
+	set := func(kind string, v bool) {
+		if seen[kind] > 0 {
+			v = v && facts[kind]
+		}
+		seen[kind]++
+		facts[kind] = v
+	}
+	closes := func(kind string, v bool) {
+		if seen[kind] > 0 {
+			v = v && facts["desyncCloses"]
+		}
+		facts["desyncCloses"] = v
+	}
 	var walk func(list []ast.Stmt) error
 	walk = func(list []ast.Stmt) error {
 		for i, st := range list {
@@ -439,7 +454,7 @@ func waitResponseLockFacts(fd *ast.FuncDecl) (facts map[string]bool, err error) 
 				switch {
 				case containsText(block, "io.ErrNoProgress"):
 					kind = "noProgress"
-					facts["desyncCloses"] = containsText(block, recv+".conn.Close")
+					closes(kind, containsText(block, recv+".conn.Close"))
 				case containsText(block, recv+".conn.Close"):
 					kind = "peekErr"
 				case containsText(block, "&"+recv+".rlock"):
@@ -448,8 +463,7 @@ func waitResponseLockFacts(fd *ast.FuncDecl) (facts map[string]bool, err error) 
 				default:
 					return fmt.Errorf("waitResponse: unclassified break")
 				}
-				seen[kind]++
-				facts[kind] = unlocked
+				set(kind, unlocked)
 			case *ast.ReturnStmt:
 				// an exit that bypasses the code after the loop (c.leave()): classified like a break, `leave` is lost
 				facts["leave"] = false
@@ -462,15 +476,12 @@ func waitResponseLockFacts(fd *ast.FuncDecl) (facts map[string]bool, err error) 
 				}
 				switch {
 				case containsText(block, "io.ErrNoProgress"):
-					seen["noProgress"]++
-					facts["noProgress"] = unlocked
-					facts["desyncCloses"] = containsText(block, recv+".conn.Close")
+					closes("noProgress", containsText(block, recv+".conn.Close"))
+					set("noProgress", unlocked)
 				case containsText(block, recv+".conn.Close"):
-					seen["peekErr"]++
-					facts["peekErr"] = unlocked
+					set("peekErr", unlocked)
 				case containsText(block, "&"+recv+".rlock"):
-					seen["take"]++
-					facts["take"] = !unlocked
+					set("take", !unlocked)
 				default:
 					return fmt.Errorf("waitResponse: unclassified return")
 				}
@@ -482,7 +493,7 @@ func waitResponseLockFacts(fd *ast.FuncDecl) (facts map[string]bool, err error) 
 		return nil, err
 	}
 	for _, k := range []string{"peekErr", "noProgress", "take"} {
-		if seen[k] != 1 {
+		if seen[k] < 1 || (k == "take" && seen[k] != 1) {
 			return nil, fmt.Errorf("waitResponse: %d exits of kind %s", seen[k], k)
 		}
 	}
@@ -662,6 +673,62 @@ func mergeIsStrict(dir string) (bool, error) {
 //	[0] discard(): a loop `for X.parent != nil { X.readerStack = X.parent }` comes before the discardN call;
 //	[1] readMessageV2: `X.remain -= <batch size> - int(<limited reader>.N)` (what the codec consumed, not the batch size);
 //	[2] readMessageV1: `remain = sz - (n - int(<limited reader>.N))`.
+//
+// headerSizes: message_reader.go readHeader — how many bytes are read before the first message of a set can be looked
+// at, per message format: the readIntN calls (top-level `if err = r.readIntN(…); err != nil` statements) before the
+// switch on the magic byte plus those at the top level of each case.
+func headerSizes(file string) ([]string, error) {
+	fset := token.NewFileSet()
+	f, err := parser.ParseFile(fset, file, nil, 0)
+	if err != nil {
+		return nil, err
+	}
+	width := map[string]int{"readInt8": 1, "readInt16": 2, "readInt32": 4, "readInt64": 8}
+	reads := func(list []ast.Stmt) (n int) {
+		for _, st := range list {
+			is, ok := st.(*ast.IfStmt)
+			if !ok || is.Init == nil {
+				continue
+			}
+			as, ok := is.Init.(*ast.AssignStmt)
+			if !ok || len(as.Rhs) != 1 {
+				continue
+			}
+			if c, ok := as.Rhs[0].(*ast.CallExpr); ok {
+				if sel, ok := c.Fun.(*ast.SelectorExpr); ok {
+					n += width[sel.Sel.Name]
+				}
+			}
+		}
+		return n
+	}
+	for _, d := range f.Decls {
+		fd, ok := d.(*ast.FuncDecl)
+		if !ok || fd.Name.Name != "readHeader" || recvName(fd) != "messageSetReader" || fd.Body == nil {
+			continue
+		}
+		var out []string
+		for i, st := range fd.Body.List {
+			sw, ok := st.(*ast.SwitchStmt)
+			if !ok {
+				continue
+			}
+			base := reads(fd.Body.List[:i])
+			for _, cc := range sw.Body.List {
+				cl := cc.(*ast.CaseClause)
+				for _, e := range cl.List {
+					if lit, ok := e.(*ast.BasicLit); ok && lit.Kind == token.INT {
+						out = append(out, fmt.Sprintf("(%s, %d)", lit.Value, base+reads(cl.Body)))
+					}
+				}
+			}
+			return out, nil
+		}
+		return nil, fmt.Errorf("readHeader: no switch on the magic byte")
+	}
+	return nil, fmt.Errorf("messageSetReader.readHeader not found")
+}
+
 func readerStackFacts(file string) ([3]bool, error) {
 	var facts [3]bool
 	fset := token.NewFileSet()
@@ -737,6 +804,86 @@ func readerStackFacts(file string) ([3]bool, error) {
 		return facts, fmt.Errorf("message_reader.go: discard / readMessageV2 / readMessageV1 not all found")
 	}
 	return facts, nil
+}
+
+func paramNames(fd *ast.FuncDecl) (names []string) {
+	for _, f := range fd.Type.Params.List {
+		for _, n := range f.Names {
+			names = append(names, n.Name)
+		}
+		if len(f.Names) == 0 {
+			names = append(names, "_")
+		}
+	}
+	return names
+}
+
+func fieldTypes(fl *ast.FieldList) (ts []ast.Expr) {
+	if fl == nil {
+		return nil
+	}
+	for _, f := range fl.List {
+		k := len(f.Names)
+		if k == 0 {
+			k = 1
+		}
+		for i := 0; i < k; i++ {
+			ts = append(ts, f.Type)
+		}
+	}
+	return ts
+}
+
+// framingHelper recognises the two framing helpers by their shape:
+//
+//	func expectZeroSize(sz int, err error) error              — body compares its first parameter with 0
+//	func discardOnKafkaError(r *bufio.Reader, size int, err error) (int, error)
+//	                                                          — errors.As(…) and a call f(r, size, size)
+func framingHelper(fd *ast.FuncDecl) string {
+	if fd.Recv != nil || fd.Body == nil {
+		return ""
+	}
+	ps := paramNames(fd)
+	isNamed := func(e ast.Expr, name string) bool { id, ok := e.(*ast.Ident); return ok && id.Name == name }
+	ptypes, rtypes := fieldTypes(fd.Type.Params), fieldTypes(fd.Type.Results)
+	switch {
+	case len(ptypes) == 2 && isNamed(ptypes[0], "int") && isNamed(ptypes[1], "error") && len(rtypes) == 1 && isNamed(rtypes[0], "error"):
+		found := false
+		ast.Inspect(fd.Body, func(n ast.Node) bool {
+			if be, ok := n.(*ast.BinaryExpr); ok && be.Op == token.NEQ {
+				if id, ok := be.X.(*ast.Ident); ok && id.Name == ps[0] {
+					if lit, ok := be.Y.(*ast.BasicLit); ok && lit.Value == "0" {
+						found = true
+					}
+				}
+			}
+			return true
+		})
+		if found {
+			return "expectZeroSize"
+		}
+	case len(ptypes) == 3 && isNamed(ptypes[1], "int") && isNamed(ptypes[2], "error") && len(rtypes) == 2 && isNamed(rtypes[0], "int") && isNamed(rtypes[1], "error"):
+		as, dn := false, false
+		ast.Inspect(fd.Body, func(n ast.Node) bool {
+			if c, ok := n.(*ast.CallExpr); ok {
+				switch f := c.Fun.(type) {
+				case *ast.Ident:
+					if len(c.Args) == 3 && f.Name != "" {
+						a1, ok1 := c.Args[1].(*ast.Ident)
+						a2, ok2 := c.Args[2].(*ast.Ident)
+						dn = dn || (ok1 && ok2 && a1.Name == ps[1] && a2.Name == ps[1])
+					}
+				case *ast.SelectorExpr:
+					as = as || f.Sel.Name == "As"
+				}
+			}
+			return true
+		})
+		if as && dn {
+			return "discardOnKafkaError"
+		}
+	}
+	return ""
 }
 
 func quoteAll(xs []string) string {
@@ -952,6 +1099,44 @@ func closesOnNonKafka(fd *ast.FuncDecl, shortBuffer bool) bool {
 	return good == 1 && closes == 1
 }
 
+// batchCloseMindsDiscard: in (*Batch).close the result of `….discard()` (skipping what is left of the response) is
+// assigned — `x := ….discard()`, `x = ….discard()` or the init of an if — and never dropped as a bare call.  (An assigned
+// but unused variable does not compile.)
+func batchCloseMindsDiscard(fd *ast.FuncDecl) bool {
+	if fd == nil {
+		return false
+	}
+	isDiscard := func(e ast.Expr) bool {
+		c, ok := e.(*ast.CallExpr)
+		if !ok {
+			return false
+		}
+		sel, ok := c.Fun.(*ast.SelectorExpr)
+		return ok && sel.Sel.Name == "discard" && len(c.Args) == 0
+	}
+	assigned, dropped := 0, 0
+	ast.Inspect(fd.Body, func(n ast.Node) bool {
+		switch s := n.(type) {
+		case *ast.ExprStmt:
+			if isDiscard(s.X) {
+				dropped++
+			}
+		case *ast.AssignStmt:
+			for i, r := range s.Rhs {
+				if isDiscard(r) {
+					if id, ok := s.Lhs[i].(*ast.Ident); ok && id.Name == "_" {
+						dropped++
+					} else {
+						assigned++
+					}
+				}
+			}
+		}
+		return true
+	})
+	return assigned >= 1 && dropped == 0
+}
+
 // transportDropsFailed: in the request loop of (*conn).run, a test of the error (`if err != nil { … }` or
 // `if err == nil { … } else { … }`) whose error branch contains a break / return occurs before the first statement that
 // calls releaseConn.
@@ -1116,8 +1301,11 @@ func extractConnLegacy(repo, root string) error {
 	}
 	x := &clx{funcs: map[string]*ast.FuncDecl{}, structs: map[string]*ast.StructType{}, memo: map[string]string{}, busy: map[string]bool{}}
 	connFns := map[string]*ast.FuncDecl{}
-	var rbufUsers []string                   // every function of the package that touches a Conn's read buffer (`….rbuf`)
-	calledBy := map[string]map[string]bool{} // simple name of a callee → qualified names of the functions calling it
+	helperAlias := map[string]string{}         // actual name of a framing helper → "expectZeroSize" / "discardOnKafkaError"
+	var rbufUsers []string                     // every function of the package that touches a Conn's read buffer (`….rbuf`)
+	calledBy := map[string]map[string]bool{}   // simple name of a callee → qualified names of the functions calling it
+	referredBy := map[string]map[string]bool{} // simple name → qualified names of the functions that mention it at all
+	allDecls := map[string]*ast.FuncDecl{}     // qualified name → declaration
 	for _, fn := range files {
 		base := filepath.Base(fn)
 		if strings.HasSuffix(base, "_test.go") || strings.HasPrefix(base, "verif_") {
@@ -1147,6 +1335,24 @@ func extractConnLegacy(repo, root string) error {
 				if touches {
 					rbufUsers = append(rbufUsers, qname)
 				}
+				allDecls[qname] = dd
+				ast.Inspect(dd.Body, func(n ast.Node) bool {
+					// any use of a name (call or function value): who refers to what
+					name := ""
+					switch e := n.(type) {
+					case *ast.SelectorExpr:
+						name = e.Sel.Name
+					case *ast.Ident:
+						name = e.Name
+					}
+					if name != "" {
+						if referredBy[name] == nil {
+							referredBy[name] = map[string]bool{}
+						}
+						referredBy[name][qname] = true
+					}
+					return true
+				})
 				ast.Inspect(dd.Body, func(n ast.Node) bool {
 					if c, ok := n.(*ast.CallExpr); ok {
 						callee := ""
@@ -1175,7 +1381,11 @@ func extractConnLegacy(repo, root string) error {
 					if r == "Batch" && dd.Name.Name == "close" {
 						connFns["Batch.close"] = dd
 					}
-				} else if dd.Name.Name == "discardOnKafkaError" || dd.Name.Name == "expectZeroSize" || strings.HasPrefix(dd.Name.Name, "readFetchResponseHeaderV") {
+				} else if canon := framingHelper(dd); canon != "" {
+					// the two framing helpers are recognised by SHAPE, whatever they are called
+					helperAlias[dd.Name.Name] = canon
+					connFns[canon] = dd
+				} else if strings.HasPrefix(dd.Name.Name, "readFetchResponseHeaderV") {
 					connFns[dd.Name.Name] = dd
 				}
 			case *ast.GenDecl:
@@ -1189,6 +1399,39 @@ func extractConnLegacy(repo, root string) error {
 					}
 				}
 			}
+		}
+	}
+	// a (unexported) method of the table that is not found under its name is looked up by the response type it reads:
+	// the one method of Conn that mentions that type
+	responseTypeOf := map[string]string{"findCoordinator": "findCoordinatorResponseV0", "heartbeat": "heartbeatResponseV0",
+		"joinGroup": "joinGroupResponse", "leaveGroup": "leaveGroupResponseV0", "listGroups": "listGroupsResponseV1",
+		"offsetCommit": "offsetCommitResponseV2", "offsetFetch": "offsetFetchResponseV1", "syncGroup": "syncGroupResponseV0",
+		"saslHandshake": "saslHandshakeResponseV0", "saslAuthenticate": "saslAuthenticateResponseV0",
+		"createTopics": "createTopicsResponse", "deleteTopics": "deleteTopicsResponse", "readOffset": "partitionOffsetV1",
+		"writeCompressedMessages": "produceResponsePartitionV2"}
+	for _, m := range connMethods {
+		ty := responseTypeOf[m]
+		if connFns[m] != nil || ty == "" {
+			continue
+		}
+		var cands []string
+		for name, fd := range connFns {
+			if recvName(fd) != "Conn" {
+				continue
+			}
+			mentions := false
+			ast.Inspect(fd, func(n ast.Node) bool {
+				if id, ok := n.(*ast.Ident); ok && id.Name == ty {
+					mentions = true
+				}
+				return !mentions
+			})
+			if mentions {
+				cands = append(cands, name)
+			}
+		}
+		if len(cands) == 1 {
+			connFns[m] = connFns[cands[0]]
 		}
 	}
 	dropsBuffer := inlineClosers(connFns)
@@ -1243,6 +1486,60 @@ func extractConnLegacy(repo, root string) error {
 			return fmt.Errorf("untranslated: (*Conn).%s not found", m)
 		}
 		set := map[string]bool{}
+		// a helper method of Conn (not itself in the table) that only THIS method refers to — an extracted read closure,
+		// say — counts as part of the method: its calls are added (one level, then its own private helpers likewise)
+		bodies := []ast.Node{fd.Body}
+		owner := "Conn." + fd.Name.Name
+		seenHelper := map[string]bool{}
+		for k := 0; k < len(bodies) && k < 4; k++ {
+			ast.Inspect(bodies[k], func(n ast.Node) bool {
+				sel, ok := n.(*ast.SelectorExpr)
+				if !ok {
+					return true
+				}
+				h := allDecls["Conn."+sel.Sel.Name]
+				if h == nil || seenHelper[sel.Sel.Name] || helperNames[sel.Sel.Name] || connFns[sel.Sel.Name] == nil {
+					return true
+				}
+				for _, cm := range connMethods {
+					if cm == sel.Sel.Name {
+						return true
+					}
+				}
+				refs := referredBy[sel.Sel.Name]
+				only := len(refs) > 0
+				for r := range refs {
+					if r != owner && !seenHelper[strings.TrimPrefix(r, "Conn.")] {
+						only = false
+					}
+				}
+				if only {
+					seenHelper[sel.Sel.Name] = true
+					bodies = append(bodies, h.Body)
+				}
+				return true
+			})
+		}
+		for _, body := range bodies[1:] {
+			ast.Inspect(body, func(n ast.Node) bool {
+				if c, ok := n.(*ast.CallExpr); ok {
+					name := ""
+					switch f := c.Fun.(type) {
+					case *ast.Ident:
+						name = f.Name
+					case *ast.SelectorExpr:
+						name = f.Sel.Name
+					}
+					if canon, ok := helperAlias[name]; ok {
+						name = canon
+					}
+					if helperNames[name] {
+						set[name] = true
+					}
+				}
+				return true
+			})
+		}
 		ast.Inspect(fd.Body, func(n ast.Node) bool {
 			c, ok := n.(*ast.CallExpr)
 			if !ok {
@@ -1254,6 +1551,9 @@ func extractConnLegacy(repo, root string) error {
 				name = f.Name
 			case *ast.SelectorExpr:
 				name = f.Sel.Name
+			}
+			if canon, ok := helperAlias[name]; ok {
+				name = canon
 			}
 			if helperNames[name] {
 				set[name] = true
@@ -1286,9 +1586,10 @@ func extractConnLegacy(repo, root string) error {
 	// body shapes of the two framing helpers
 	ez, dk := false, false
 	if fd := connFns["expectZeroSize"]; fd != nil {
+		szName := paramNames(fd)[0]
 		ast.Inspect(fd.Body, func(n ast.Node) bool {
 			if be, ok := n.(*ast.BinaryExpr); ok && be.Op == token.NEQ {
-				if id, ok := be.X.(*ast.Ident); ok && id.Name == "sz" {
+				if id, ok := be.X.(*ast.Ident); ok && id.Name == szName {
 					if lit, ok := be.Y.(*ast.BasicLit); ok && lit.Value == "0" {
 						ez = true
 					}
@@ -1392,6 +1693,11 @@ func extractConnLegacy(repo, root string) error {
 		return fmt.Errorf("untranslated: %v", err)
 	}
 	fmt.Fprintf(&b, "/-- message_reader.go: discard() rewinds to the root reader; compressed v2 / v1 pushes charge `remain` with what the codec consumed -/\ndef readerStackFacts : KV.ReaderStack.Facts := { discardRewinds := %v, v2AccountsConsumed := %v, v1AccountsConsumed := %v }\n\n", rsf[0], rsf[1], rsf[2])
+	hs, err := headerSizes(filepath.Join(repo, "message_reader.go"))
+	if err != nil {
+		return fmt.Errorf("untranslated: %v", err)
+	}
+	fmt.Fprintf(&b, "/-- message_reader.go readHeader: bytes read before the first message of a set can be looked at, per magic byte -/\ndef headerSizes : List (Nat × Nat) := [%s]\n\n", strings.Join(hs, ", "))
 	// transport.go (*conn).run: a failed exchange leaves the loop before releaseConn
 	tf, err := transportDropsFailed(filepath.Join(repo, "transport.go"))
 	if err != nil {
@@ -1401,7 +1707,48 @@ func extractConnLegacy(repo, root string) error {
 	// Merge methods of the split requests: the first failed part fails the call
 	b.WriteString("/-- protocol/<api>/(*Response).Merge returns the error of the first failed part from inside its loop over the results -/\n")
 	b.WriteString("def strictMerges : List (String × Bool) := [")
-	for i, api := range []string{"listgroups", "describegroups", "describeconfigs"} {
+	// every package under protocol/ that defines a Merge method, list-offsets apart (its Merge keeps the parts that
+	// arrived and marks the lost ones: the C19 builder's Model/ListOffsets.lean) — a new Merge joins the list by itself
+	var mergeAPIs []string
+	if dirs, err := filepath.Glob(filepath.Join(repo, "protocol", "*")); err == nil {
+		for _, d := range dirs {
+			api := filepath.Base(d)
+			if api == "listoffsets" {
+				continue
+			}
+			files, _ := filepath.Glob(filepath.Join(d, "*.go"))
+			has := false
+			for _, fn := range files {
+				if strings.HasSuffix(fn, "_test.go") {
+					continue
+				}
+				if f, err := parser.ParseFile(token.NewFileSet(), fn, nil, 0); err == nil {
+					for _, dcl := range f.Decls {
+						if fd, ok := dcl.(*ast.FuncDecl); ok && fd.Recv != nil && fd.Name.Name == "Merge" {
+							has = true
+						}
+					}
+				}
+			}
+			if has {
+				mergeAPIs = append(mergeAPIs, api)
+			}
+		}
+	}
+	// the order the theorems and notes use: the three known ones first, anything new after them
+	sort.SliceStable(mergeAPIs, func(i, j int) bool {
+		rank := map[string]int{"listgroups": 0, "describegroups": 1, "describeconfigs": 2}
+		ri, oki := rank[mergeAPIs[i]]
+		rj, okj := rank[mergeAPIs[j]]
+		if !oki {
+			ri = 9
+		}
+		if !okj {
+			rj = 9
+		}
+		return ri < rj
+	})
+	for i, api := range mergeAPIs {
 		strict, err := mergeIsStrict(filepath.Join(repo, "protocol", api))
 		if err != nil {
 			return fmt.Errorf("untranslated: %v", err)
@@ -1429,6 +1776,7 @@ func extractConnLegacy(repo, root string) error {
 	fmt.Fprintf(&b, "/-- conn.go ReadBatchWith: at the high watermark (empty reader) the message set of the response is discarded -/\ndef fetchSkipsAtWatermark : Bool := %v\n\n", skips)
 	// which errors close the connection: `if !errors.As(err, &kafkaError) { c.conn.Close() }` in do,
 	// `if !errors.As(err, &kafkaError) && !errors.Is(err, io.ErrShortBuffer) { conn.Close() }` in Batch.close
+	fmt.Fprintf(&b, "/-- (*Batch).close uses the result of msgs.discard(): a response whose rest cannot be skipped does not end in a kept Conn -/\ndef batchCloseMindsDiscard : Bool := %v\n\n", batchCloseMindsDiscard(connFns["Batch.close"]))
 	fmt.Fprintf(&b, "/-- (*Conn).do / (*Batch).close close the connection exactly on errors that are not kafka errors (Batch: nor io.ErrShortBuffer) -/\ndef doClosesNonKafka : Bool := %v\ndef batchClosesNonKafka : Bool := %v\n\n",
 		closesOnNonKafka(connFns["do"], false), closesOnNonKafka(connFns["Batch.close"], true))
 	b.WriteString("def callsOf (m : String) : List String := ((calls.find? (·.1 == m)).map (·.2)).getD []\n")
